@@ -43,6 +43,16 @@ def make_plan(seed: int, tier: str, opts: dict) -> dict:
         for k_, c in enumerate(spec["conns"]):
             if r.random() < 0.25:
                 c["name"] = f"in{k_}"  # shadow input name
+        if r.random() < opts.get("trainable_p", 0.2):
+            # one trainable-delay connection with an explicitly configured expected delay that is not the distribution's current delay
+            cands = [c for c in spec["conns"] if not c["blocking"] and c["jitter"] == "L"]
+            if cands:
+                c = r.choice(cands)
+                per = min(1.0 / spec["nodes"][c["dst"]]["rate"], 1.0 / spec["nodes"][c["src"]]["rate"])
+                dmin = sp._r6(per * r.choice([0.0, 0.1]))
+                dmax = sp._r6(dmin + per * r.choice([0.5, 0.8]))
+                c["dist"] = ["train", dmin, dmax, sp._r6(dmin + r.random() * (dmax - dmin))]
+                c["delay"] = sp._r6(r.choice([dmin, 0.5 * (dmin + dmax), dmax, per]))
         sp._repair(spec)
         # history of configuration calls
         model = copy.deepcopy(spec)
@@ -145,7 +155,10 @@ def model_phases(model):
 
 def dist_sig(dd):
     import distrax
+    from rex.base import TrainableDist
 
+    if isinstance(dd, TrainableDist):
+        return ["train", round(float(dd.min), 6), round(float(dd.max), 6)]
     d = dd.dist
     if isinstance(d, distrax.Deterministic):
         return ["det", round(float(d.loc), 6)]
@@ -228,6 +241,8 @@ def _sig_model(d):
         return ["det", round(float(onp.float32(d[1])), 6)]
     if d[0] == "mix":
         return ["mix", [round(float(onp.float32(x)), 6) for x in d[1]]]
+    if d[0] == "train":
+        return ["train", round(float(onp.float32(d[1])), 6), round(float(onp.float32(d[2])), 6)]
     return d
 
 
